@@ -2,6 +2,6 @@ SPECIFICATION Spec
 CONSTANTS
   MaxField = 1000000
   MaxNum = 30000
-  Fuel = 40
+  Fuel = 150
   Families = {"body", "range", "begin", "end"}
 CHECK_DEADLOCK FALSE
